@@ -183,6 +183,18 @@ func Def[S any](ck Check, enumerate func(c *Ctx, yield func(S)), run func(c *Ctx
 func runOne[S any](c *Ctx, s S, run func(c *Ctx, s S)) {
 	raw, _ := json.Marshal(s)
 	c.curSpec = raw
+	// watchdog: a single case that does not return (a hang in the code under test or in the harness)
+	// ends the worker with an infrastructure error instead of blocking the check forever
+	done := make(chan struct{})
+	defer close(done)
+	go func() {
+		select {
+		case <-done:
+		case <-time.After(5 * time.Minute):
+			fmt.Fprintf(os.Stderr, "WATCHDOG: case did not finish within 5 minutes: %s\n", raw)
+			os.Exit(3)
+		}
+	}()
 	before := len(c.Viol)
 	sigsBefore := map[string]bool{}
 	for k := range c.Viol {
